@@ -16,6 +16,7 @@ struct Options {
 	bool trace = false;	   // keep a human-readable trace
 	bool alloc_ledger = false; // install the counting allocator (C18)
 	long fail_alloc = 0;	   // C18: fail the k-th allocation (1-based) once; 0 = never
+	bool no_midstop = false;   // chunking metamorphic pair: a stop placed by counting transport calls would fall at different protocol points in the two runs
 	std::string focus;	   // property under test (some failures charged to other properties are tolerated so that the conversation can go on)
 };
 
